@@ -134,3 +134,32 @@ def rec_ite(c: Any, a: Rec, b: Rec) -> Rec:
     if c is False:
         return b
     return Rec(a.name, tuple((k, z3.If(c, to_z3(a.get(k)), to_z3(b.get(k)))) for k, _ in a.fields))
+
+
+# protobuf message views ---------------------------------------------------------
+def which_is(m: Any, member: str) -> Any:
+    """Is oneof member / message field `member` of message view `m` present? (python bool or z3 Bool)"""
+    pm = m._env.eng.protomodel
+    o = m._obj()
+    f = pm.fdesc(o.cls, member)
+    if f is None:
+        raise AttributeError(f"{o.cls} has no field {member}")
+    if f["oneof"]:
+        w = o.get("$which:" + f["oneof"])
+        if w is None or isinstance(w, str):
+            return w == member
+        return w == pm.oneofs(o.cls)[f["oneof"]].index(member) + 1
+    return o.get("$has:" + member)
+
+
+def which_unset(m: Any, oneof: str) -> Any:
+    o = m._obj()
+    w = o.get("$which:" + oneof)
+    if w is None or isinstance(w, str):
+        return w is None
+    return w == 0
+
+
+def msg_field(m: Any, name: str) -> Any:
+    """value of a (possibly oneof) scalar field as stored (meaningful only when present)"""
+    return getattr(m, name)
